@@ -112,6 +112,10 @@ def run(tier):
             if np.all(np.asarray(unc) == np.round(unc)) and np.all(np.asarray(unc) < 200) and np.all(np.asarray(unc) >= 1):
                 # whole-number uncertainties in narrow integer types (their squares do not fit the type)
                 forms += [dict(y_data=y.copy(), unc=np.asarray(unc).astype(np.uint8)), dict(y_data=y.copy(), unc=np.asarray(unc).astype(np.int16))]
+            with np.errstate(all="ignore"):
+                if np.all(np.asarray(unc, dtype=np.float16).astype(float) == np.asarray(unc, dtype=float)):
+                    # uncertainties that single and half precision hold exactly, given in those types: results in double precision all the same
+                    forms += [dict(y_data=y.copy(), unc=np.asarray(unc).astype(np.float32)), dict(y_data=y.copy(), unc=np.asarray(unc).astype(np.float16))]
             f_ = forms[(ci // 5) % len(forms)]
             try:
                 L2 = type(L)(y_data=f_["y_data"], forward_model=model, forward_model_jacobian=model.jac,
